@@ -109,6 +109,20 @@ static sexp verif_set_gc (sexp ctx, sexp self, sexp_sint_t n, sexp mode, sexp a,
   return SEXP_VOID;
 }
 
+static int verif_saved_slice_mode = 0;
+
+/* (verif-slices-go!): the slice schedule given with slices=... sgo=1 starts here (not during
+   compilation / macro expansion of the program) */
+static sexp verif_slices_go (sexp ctx, sexp self, sexp_sint_t n) {
+  if (verif_saved_slice_mode) {
+    sexp_verif.slice_mode = verif_saved_slice_mode;
+    verif_saved_slice_mode = 0;
+    sexp_verif.slice_idx = 0;
+    sexp_verif.sched_entries = 0;
+  }
+  return SEXP_VOID;
+}
+
 static sexp verif_stats (sexp ctx, sexp self, sexp_sint_t n) {
   sexp_gc_var1(v);
   sexp_gc_preserve1(ctx, v);
@@ -225,6 +239,7 @@ static void child_run (char *line, char *prog, size_t len) {
   if ((v = opt(line, "noopt", tmp, sizeof(tmp))) && atoi(v))
     verif_set_optimizations(ctx, NULL, 1, SEXP_FALSE);
 #if SEXP_USE_VERIF_HOOKS
+  sexp_verif.sched_entries = 0;
   if ((v = opt(line, "check", tmp, sizeof(tmp)))) sexp_verif.check = atoi(v);
   if ((v = opt(line, "poison", tmp, sizeof(tmp)))) sexp_verif.poison = atoi(v);
   if ((v = opt(line, "scribble", tmp, sizeof(tmp)))) sexp_verif.scribble = atoi(v);
@@ -256,6 +271,10 @@ static void child_run (char *line, char *prog, size_t len) {
         sexp_verif.slice_mode = 2; sexp_verif.slice_rng = a + 1; sexp_verif.slice_max = b ? b : 1;
       }
     }
+  }
+  if ((v = opt(line, "sgo", tmp, sizeof(tmp))) && atoi(v) && sexp_verif.slice_mode) {
+    verif_saved_slice_mode = sexp_verif.slice_mode;
+    sexp_verif.slice_mode = 0;
   }
 #endif
 
@@ -400,6 +419,7 @@ int main (int argc, char **argv) {
 #if SEXP_USE_VERIF_HOOKS
   sexp_define_foreign(ctx, env, "verif-set-gc!", 3, verif_set_gc);
   sexp_define_foreign(ctx, env, "verif-stats", 0, verif_stats);
+  sexp_define_foreign(ctx, env, "verif-slices-go!", 0, verif_slices_go);
 #endif
 
   if (prelude) {
